@@ -41,14 +41,57 @@ double nv_old_g;       /* the source's element nv_g before the call */
 _Bool nv_alias;        /* the source view lies inside the destination's own buffer */
 int64_t nv_off;        /* ... at this offset */
 
-/* nano::size(dims): the product of the extents (proved on the SMT side: size<R>); rank 1: the only extent */
+/* nano::size(dims): the product of the extents (proved on the SMT side: size<R> == P_0, >= 0 under the tensor invariant).
+ * Rank 1: the only extent.  Ranks 2, 3: the product is NAMED, never computed (one 64-bit multiplication inside a contract
+ * already times CBMC out): an uninterpreted function of the extents -- all the storage classes need is that size() is a FUNCTION
+ * of the dims (same dims => same number of coefficients; different dims may or may not have the same size), that it is >= 0
+ * (size<R>: proved) and that it stays below the modelled allocation bound NV_MAXN.
+ * The macros below take the extents as an element list (e0[, e1[, e2]]), so that one contract text serves `dims` structs,
+ * `sizes...` parameter packs (dims_0, dims_1, ..) and literal zeros alike. */
+#define NV_APPLY(m, ...) m(__VA_ARGS__)
+#define NV_APPLY2(m, ...) m(__VA_ARGS__)       /* contract level (a macro is not re-expanded inside its own expansion) */
 #if NV_RANK == 1
-static int64_t nv_size(const struct nv_dims* dims) { return dims->d[0]; }
-#define NV_SIZE(b) ((b).m_dims.d[0])
-#define NV_DIMS_EQ(a, b) ((a).m_dims.d[0] == (b).m_dims.d[0])
-#define NV_DIMS_OK(b) (0 <= (b).m_dims.d[0] && (b).m_dims.d[0] <= NV_MAXN)
-static _Bool nv_dims_eq(const struct nv_dims* a, const struct nv_dims* b) { return a->d[0] == b->d[0]; }     /* operator== on tensor_dims_t */
+#define NV_ELS(D) (D).d[0]                                   /* the extents of a struct nv_dims, as a list */
+#define NV_PACK(p) p                                         /* the expanded parameter pack `p...` of sizes (the printer's names) */
+#define NV_ZEROS 0
+#define NV_PRODE(a) (a)
+#define NV_EQE(D, a) ((D).d[0] == (a))
+#define NV_NONNEG(a) (0 <= (a))
+static struct nv_dims nv_make_dims(int64_t a) { struct nv_dims d; d.d[0] = a; return d; }     /* make_dims(sizes...): proved (SMT: make_dims<N>) */
+static void nv_dims_fill(struct nv_dims* d, int64_t v) { d->d[0] = v; }                       /* std::array::fill */
+#elif NV_RANK == 2
+int64_t __CPROVER_uninterpreted_nv_prod2(int64_t, int64_t);
+#define NV_ELS(D) (D).d[0], (D).d[1]
+#define NV_PACK(p) p##_0, p##_1
+#define NV_ZEROS 0, 0
+#define NV_PRODE(a, b) __CPROVER_uninterpreted_nv_prod2(a, b)
+#define NV_EQE(D, a, b) ((D).d[0] == (a) && (D).d[1] == (b))
+#define NV_NONNEG(a, b) (0 <= (a) && 0 <= (b))
+static struct nv_dims nv_make_dims(int64_t a, int64_t b) { struct nv_dims d; d.d[0] = a; d.d[1] = b; return d; }
+static void nv_dims_fill(struct nv_dims* d, int64_t v) { d->d[0] = v; d->d[1] = v; }
+#elif NV_RANK == 3
+int64_t __CPROVER_uninterpreted_nv_prod3(int64_t, int64_t, int64_t);
+#define NV_ELS(D) (D).d[0], (D).d[1], (D).d[2]
+#define NV_PACK(p) p##_0, p##_1, p##_2
+#define NV_ZEROS 0, 0, 0
+#define NV_PRODE(a, b, c) __CPROVER_uninterpreted_nv_prod3(a, b, c)
+#define NV_EQE(D, a, b, c) ((D).d[0] == (a) && (D).d[1] == (b) && (D).d[2] == (c))
+#define NV_NONNEG(a, b, c) (0 <= (a) && 0 <= (b) && 0 <= (c))
+static struct nv_dims nv_make_dims(int64_t a, int64_t b, int64_t c) { struct nv_dims d; d.d[0] = a; d.d[1] = b; d.d[2] = c; return d; }
+static void nv_dims_fill(struct nv_dims* d, int64_t v) { d->d[0] = v; d->d[1] = v; d->d[2] = v; }
 #endif
+/* an extent list that is a valid shape within the modelled bound: extents >= 0, 0 <= product <= NV_MAXN */
+#define NV_OKE(...) (NV_NONNEG(__VA_ARGS__) && 0 <= NV_PRODE(__VA_ARGS__) && NV_PRODE(__VA_ARGS__) <= NV_MAXN)
+#define NV_DPROD(D) NV_APPLY(NV_PRODE, NV_ELS(D))            /* size of a struct nv_dims */
+#define NV_DEQ(D, E) NV_APPLY(NV_EQE, D, NV_ELS(E))          /* two struct nv_dims are equal, extent by extent */
+#define NV_DOK(D) NV_APPLY(NV_OKE, NV_ELS(D))
+#define NV_DZERO(D) NV_APPLY(NV_EQE, D, NV_ZEROS)            /* every extent is 0 (the default-constructed tensor) */
+static int64_t nv_size(const struct nv_dims* dims) { return NV_DPROD(*dims); }
+static int64_t nv_extent(const struct nv_base* b, int k) { __CPROVER_assert(0 <= k && k < NV_RANK, "size<k>(): k < rank"); return b->m_dims.d[k]; }    /* size<k>() == dims[k] */
+#define NV_SIZE(b) NV_DPROD((b).m_dims)
+#define NV_DIMS_EQ(a, b) NV_DEQ((a).m_dims, (b).m_dims)
+#define NV_DIMS_OK(b) NV_DOK((b).m_dims)
+static _Bool nv_dims_eq(const struct nv_dims* a, const struct nv_dims* b) { return NV_DEQ(*a, *b); }     /* operator== on tensor_dims_t */
 
 /* ------------------------------------------------------------------ Eigen (assumed contracts, see the header comment) */
 static struct nv_emap nv_map_vector(const double* p, int64_t n) { struct nv_emap m = {(double*)p, n}; return m; }
@@ -114,36 +157,31 @@ __CPROVER_ensures(__CPROVER_return_value == NV_SIZE(*self))
 #define NV_CONTRACT_base_dims __CPROVER_requires(__CPROVER_is_fresh(self, sizeof(*self))) __CPROVER_assigns() \
 __CPROVER_ensures(__CPROVER_return_value == &self->m_dims)
 #define NV_CONTRACT_base__resize __CPROVER_requires(__CPROVER_is_fresh(self, sizeof(*self)) && __CPROVER_is_fresh(dims, sizeof(*dims))) \
-__CPROVER_assigns(self->m_dims) __CPROVER_ensures(self->m_dims.d[0] == dims->d[0])
+__CPROVER_assigns(self->m_dims) __CPROVER_ensures(NV_DEQ(self->m_dims, *dims))
 #define NV_CONTRACT_base_ctor __CPROVER_requires(__CPROVER_is_fresh(self, sizeof(*self))) \
-__CPROVER_assigns(self->m_dims) __CPROVER_ensures(self->m_dims.d[0] == dims.d[0])
+__CPROVER_assigns(self->m_dims) __CPROVER_ensures(NV_DEQ(self->m_dims, dims))
 #define NV_CONTRACT_base_copy_ctor __CPROVER_requires(__CPROVER_is_fresh(self, sizeof(*self)) && __CPROVER_is_fresh(nv_unnamed0, sizeof(*nv_unnamed0))) \
 __CPROVER_assigns(self->m_dims) __CPROVER_ensures(NV_DIMS_EQ(*self, *nv_unnamed0))
 #define NV_CONTRACT_base_assign __CPROVER_requires(__CPROVER_is_fresh(self, sizeof(*self)) && __CPROVER_is_fresh(nv_unnamed0, sizeof(*nv_unnamed0))) \
 __CPROVER_assigns(self->m_dims) __CPROVER_ensures(NV_DIMS_EQ(*self, *nv_unnamed0) && __CPROVER_return_value == self)
-static void nv_dims_fill(struct nv_dims* d, int64_t v) { d->d[0] = v; }     /* std::array::fill (rank 1) */
 #define NV_CONTRACT_base_default_ctor __CPROVER_requires(__CPROVER_is_fresh(self, sizeof(*self))) \
-__CPROVER_assigns(self->m_dims) __CPROVER_ensures(self->m_dims.d[0] == 0)
+__CPROVER_assigns(self->m_dims) __CPROVER_ensures(NV_DZERO(self->m_dims))
 /* default construction: the empty tensor (every extent 0, no elements; a mapping storage maps nothing) */
 #define NV_CONTRACT_vs_default_ctor NV_NEW(self) __CPROVER_assigns(__CPROVER_object_whole(self)) \
-__CPROVER_ensures(self->base.m_dims.d[0] == 0 && self->m_data.n == 0)
+__CPROVER_ensures(NV_DZERO(self->base.m_dims) && self->m_data.n == 0)
 #define NV_CONTRACT_cs_default_ctor NV_NEW(self) __CPROVER_assigns(__CPROVER_object_whole(self)) \
-__CPROVER_ensures(self->base.m_dims.d[0] == 0 && self->m_data == (const double*)0)
+__CPROVER_ensures(NV_DZERO(self->base.m_dims) && self->m_data == (const double*)0)
 #define NV_CONTRACT_ms_default_ctor NV_NEW(self) __CPROVER_assigns(__CPROVER_object_whole(self)) \
-__CPROVER_ensures(self->base.m_dims.d[0] == 0 && self->m_data == (double*)0)
-#if NV_RANK == 1
-static struct nv_dims nv_make_dims(int64_t a) { struct nv_dims d; d.d[0] = a; return d; }
-#endif
+__CPROVER_ensures(NV_DZERO(self->base.m_dims) && self->m_data == (double*)0)
 
 /* ------------------------------------------------------------------ tensor_vector_storage_t (owning) */
 #define NV_NEW(s) __CPROVER_requires(__CPROVER_is_fresh(s, sizeof(*(s))))
 #define NV_DISTINCT(a, b, n) ((n) > 0 ==> !__CPROVER_same_object((a), (b)))
-#define NV_CONTRACT_vs_ctor_sizes NV_NEW(self) __CPROVER_requires(0 <= dims && dims <= NV_MAXN) \
+#define NV_VS_CTOR(...) NV_NEW(self) __CPROVER_requires(NV_OKE(__VA_ARGS__)) \
 __CPROVER_assigns(__CPROVER_object_whole(self)) \
-__CPROVER_ensures(self->base.m_dims.d[0] == dims && NV_OWNS(self, self->base))
-#define NV_CONTRACT_vs_ctor_dims NV_NEW(self) __CPROVER_requires(0 <= dims.d[0] && dims.d[0] <= NV_MAXN) \
-__CPROVER_assigns(__CPROVER_object_whole(self)) \
-__CPROVER_ensures(self->base.m_dims.d[0] == dims.d[0] && NV_OWNS(self, self->base))
+__CPROVER_ensures(NV_EQE(self->base.m_dims, __VA_ARGS__) && NV_OWNS(self, self->base))
+#define NV_CONTRACT_vs_ctor_sizes NV_APPLY2(NV_VS_CTOR, NV_PACK(dims))
+#define NV_CONTRACT_vs_ctor_dims NV_APPLY2(NV_VS_CTOR, NV_ELS(dims))
 
 /* owning <- mapping view of a separate block (a storage under construction has no buffer the view could alias) */
 #define NV_FROM_VIEW NV_NEW(self) __CPROVER_requires(__CPROVER_is_fresh(other, sizeof(*other)) && NV_VIEW_FRESH(other)) \
@@ -180,8 +218,8 @@ __CPROVER_ensures(NV_OWNS(self, other->base) && NV_GHOST_NEW(self->m_data.p, sel
 #define NV_CONTRACT_vs_assign_c NV_ASSIGN_VIEW
 #define NV_CONTRACT_vs_assign_m NV_ASSIGN_VIEW
 /* the conversion clause as assertions of the alias harnesses (dst: struct nv_vstore*, n: the source's size before the call) */
-#define NV_POST_OWNING(dst, cnt, what) \
-  __CPROVER_assert((dst)->base.m_dims.d[0] == (cnt) && (dst)->m_data.n == (cnt), what ": the destination has the source's dims and holds size() coefficients"); \
+#define NV_POST_OWNING(dst, srcdims, cnt, what) \
+  __CPROVER_assert(NV_DEQ((dst)->base.m_dims, srcdims) && (dst)->m_data.n == (cnt), what ": the destination has the source's dims and holds size() coefficients"); \
   __CPROVER_assert((cnt) <= 0 || __CPROVER_rw_ok((dst)->m_data.p, (size_t)(cnt) * sizeof(double)), what ": the destination owns live memory of size() coefficients"); \
   __CPROVER_assert(!(0 <= nv_g && nv_g < (cnt)) || NV_SAME((dst)->m_data.p[nv_g], nv_old_g), \
                    what ": destination element i is the source's element i as it was BEFORE the call (the source view may lie inside the destination's own buffer)")
@@ -202,24 +240,24 @@ __CPROVER_ensures(NV_OWNS(self, NV_O->base) && NV_GHOST_NEW(self->m_data.p, self
  * NOT assume the storage invariant m_data.size() == size(): a moved-from owning storage keeps its dims while its vector was
  * moved away (or swapped), and resize() is what re-establishes the invariant -- from ANY valid vector */
 #define NV_VS_ANY(s) (NV_DIMS_OK((s)->base) && 0 <= (s)->m_data.n && (s)->m_data.n <= NV_MAXN && __CPROVER_is_fresh((s)->m_data.p, NV_BYTES((s)->m_data.n)))
-#define NV_RESIZE(newn) __CPROVER_requires(__CPROVER_is_fresh(self, sizeof(*self)) && NV_VS_ANY(self) && 0 <= (newn) && (newn) <= NV_MAXN) \
+#define NV_RESIZE(...) __CPROVER_requires(__CPROVER_is_fresh(self, sizeof(*self)) && NV_VS_ANY(self) && NV_OKE(__VA_ARGS__)) \
 __CPROVER_requires(NV_GHOST_OLD(self->m_data.p, self->m_data.n)) \
 __CPROVER_assigns(__CPROVER_object_whole(self), __CPROVER_object_whole(self->m_data.p)) __CPROVER_frees(self->m_data.p) \
-__CPROVER_ensures(self->base.m_dims.d[0] == (newn) && NV_OWNS(self, self->base)) \
-__CPROVER_ensures(__CPROVER_old(self->m_data.n) == (newn) ==> (self->m_data.p == __CPROVER_old(self->m_data.p) && NV_GHOST_NEW(self->m_data.p, self->m_data.n)))
-#define NV_CONTRACT_vs_resize_sizes NV_RESIZE(dims)
-#define NV_CONTRACT_vs_resize_dims __CPROVER_requires(__CPROVER_is_fresh(dims, sizeof(*dims))) NV_RESIZE(dims->d[0])
+__CPROVER_ensures(NV_EQE(self->base.m_dims, __VA_ARGS__) && NV_OWNS(self, self->base)) \
+__CPROVER_ensures(__CPROVER_old(self->m_data.n) == NV_PRODE(__VA_ARGS__) ==> (self->m_data.p == __CPROVER_old(self->m_data.p) && NV_GHOST_NEW(self->m_data.p, self->m_data.n)))
+#define NV_CONTRACT_vs_resize_sizes NV_APPLY2(NV_RESIZE, NV_PACK(dims))
+#define NV_CONTRACT_vs_resize_dims __CPROVER_requires(__CPROVER_is_fresh(dims, sizeof(*dims))) NV_APPLY2(NV_RESIZE, NV_ELS(*dims))
 #define NV_DATA_OF_VS __CPROVER_requires(__CPROVER_is_fresh(self, sizeof(*self))) __CPROVER_assigns() __CPROVER_ensures(__CPROVER_return_value == self->m_data.p)
 #define NV_CONTRACT_vs_data NV_DATA_OF_VS
 #define NV_CONTRACT_vs_cdata NV_DATA_OF_VS
 
 /* ------------------------------------------------------------------ mapping storages: constructors alias the given data */
-#define NV_MAP_CTOR(newn) NV_NEW(self) __CPROVER_assigns(__CPROVER_object_whole(self)) \
-__CPROVER_ensures(self->base.m_dims.d[0] == (newn) && self->m_data == data)
-#define NV_CONTRACT_cs_ctor_sizes NV_MAP_CTOR(dims)
-#define NV_CONTRACT_cs_ctor_dims NV_MAP_CTOR(dims.d[0])
-#define NV_CONTRACT_ms_ctor_sizes NV_MAP_CTOR(dims)
-#define NV_CONTRACT_ms_ctor_dims NV_MAP_CTOR(dims.d[0])
+#define NV_MAP_CTOR(...) NV_NEW(self) __CPROVER_assigns(__CPROVER_object_whole(self)) \
+__CPROVER_ensures(NV_EQE(self->base.m_dims, __VA_ARGS__) && self->m_data == data)
+#define NV_CONTRACT_cs_ctor_sizes NV_APPLY2(NV_MAP_CTOR, NV_PACK(dims))
+#define NV_CONTRACT_cs_ctor_dims NV_APPLY2(NV_MAP_CTOR, NV_ELS(dims))
+#define NV_CONTRACT_ms_ctor_sizes NV_APPLY2(NV_MAP_CTOR, NV_PACK(dims))
+#define NV_CONTRACT_ms_ctor_dims NV_APPLY2(NV_MAP_CTOR, NV_ELS(dims))
 /* mapping <- owning: the same dims and the SAME elements (the view is the owner's block) */
 #define NV_MAP_FROM_VS NV_NEW(self) __CPROVER_requires(__CPROVER_is_fresh(other, sizeof(*other)) && NV_VS_OK(other)) \
 __CPROVER_assigns(__CPROVER_object_whole(self)) \
@@ -273,3 +311,5 @@ __CPROVER_ensures(NV_GHOST_NEW(self->m_data, NV_SIZE(self->base)))
 #define NV_CONTRACT_t_map_assign_mem NV_MS_FROM_VS(other) NV_RET_SELF
 #define NV_CONTRACT_t_map_assign_cmap NV_MS_FROM_VIEW(other) NV_RET_SELF
 #define NV_CONTRACT_t_map_assign_map NV_MS_FROM_VIEW(NV_O) NV_RET_SELF
+/* the DEFAULTED move assignment of a mapping tensor (`t.tensor(i) = t.tensor(j)` in detail::copy): also an element copy */
+#define NV_CONTRACT_t_map_move_assign NV_MS_FROM_VIEW(NV_O) NV_RET_SELF
